@@ -246,7 +246,9 @@ Definition alloc_ev (e : event) : list string :=
   | EvAlloc s a => [("a" ++ zstr s ++ ":" ++ zstr a)%string]
   | EvRealloc s a n => [("r" ++ zstr s ++ ":" ++ zstr a ++ ">" ++ zstr n)%string]
   | EvDealloc s a => [("d" ++ zstr s ++ ":" ++ zstr a)%string]
-  | EvAllocFail s a => [("f" ++ zstr s ++ ":" ++ zstr a)%string]
+  | EvAllocFail s a None => [("f" ++ zstr s ++ ":" ++ zstr a)%string]
+  | EvAllocFail s a (Some (l, c, al)) =>
+      [("f" ++ zstr s ++ ":" ++ zstr a ++ ":h" ++ zstr l ++ "/" ++ zstr c ++ "/" ++ zstr al)%string]
   | _ => []
   end.
 Definition elem_ev (e : event) : list string :=
